@@ -44,7 +44,6 @@ var errC20EvalKinds = []error{errC20Eval,
 	fmt.Errorf("evaluation sub-task: %w", context.Canceled),
 	fmt.Errorf("evaluation sub-task: %w", context.DeadlineExceeded)}
 
-
 type c20Config struct {
 	Runs      int  `json:"runs"`
 	Gens      int  `json:"generations"`
